@@ -669,19 +669,6 @@ theorem cssFront_unowned (cm nbc : Bool) (cr : CRC) : ∀ x ∈ cssFront cm nbc 
   · simp at hx; subst hx; rfl
   · cases hx
 
-theorem cssLoop_sum (c : Cfg) (f : Kind → Nat → Bytes) (cm : Bool) (crs : List CRC) :
-    ∀ nbc : Bool, ((entriesCSS c f crs).map (·.2)).sum = ownedSum (sliceCount c f) (cssLoop cm nbc crs) := by
-  induction crs with
-  | nil => intro nbc; simp [entriesCSS, cssLoop, ownedSum]
-  | cons cr rest ih =>
-    intro nbc
-    simp only [cssLoop, ownedSum_append, ownedSum_of_unowned _ _ (cssFront_unowned cm nbc cr), Nat.zero_add]
-    have ih' := ih (nbc || !cr.code.isEmpty)
-    simp only [entriesCSS] at ih' ⊢
-    cases hs : cr.src with
-    | none => simp [hs, ownedSum] at ih' ⊢; exact ih'
-    | some s => simp [hs, ownedSum] at ih' ⊢; omega
-
 theorem cssLoop_owned (cm : Bool) (crs : List CRC) (s : Nat) :
     ∀ nbc : Bool, owned (cssLoop cm nbc crs) s = (crs.filter (fun cr => cr.src == some s)).map (·.code) := by
   induction crs with
@@ -692,66 +679,6 @@ theorem cssLoop_owned (cm : Bool) (crs : List CRC) (s : Nat) :
     have ih' := ih (nbc || !cr.code.isEmpty)
     simp only [owned, List.filter_cons] at ih' ⊢
     split <;> simp [ih']
-
-/-- what a reader of the CSS `"inputs"` object gets for input `s`: the count of the LAST compile result of `s` -/
-theorem jsonRead_css (c : Cfg) (f : Kind → Nat → Bytes) (crs : List CRC) (s : Nat) :
-    jsonRead (entriesCSS c f crs) s =
-      ((crs.filter (fun cr => cr.src == some s)).getLast?).map (fun cr => sliceCount c f cr.code) := by
-  have key : (entriesCSS c f crs).filter (fun e => e.1 == s) =
-      (crs.filter (fun cr => cr.src == some s)).map (fun cr => (s, sliceCount c f cr.code)) := by
-    induction crs with
-    | nil => simp [entriesCSS]
-    | cons cr rest ih =>
-      simp only [entriesCSS, List.filterMap_cons] at ih ⊢
-      cases hs : cr.src with
-      | none => simp [hs, ih]
-      | some s' =>
-        by_cases h : s' = s
-        · subst h; simp [hs, ih]
-        · simp [hs, ih, h]
-  unfold jsonRead
-  rw [key, List.getLast?_map]
-  simp [Option.map_map, Function.comp_def]
-
-theorem filter_src_of_nodup (crs : List CRC) (s : Nat) (h : (crs.filterMap (·.src)).Nodup) :
-    (crs.filter (fun cr => cr.src == some s)).length ≤ 1 := by
-  induction crs with
-  | nil => simp
-  | cons cr rest ih =>
-    simp only [List.filterMap_cons] at h
-    cases hs : cr.src with
-    | none =>
-      rw [hs] at h
-      simp [hs]
-      exact ih h
-    | some s' =>
-      rw [hs] at h
-      simp only at h
-      rw [List.nodup_cons] at h
-      by_cases he : s' = s
-      · subst he
-        have : rest.filter (fun cr => cr.src == some s') = [] := by
-          rw [List.filter_eq_nil_iff]
-          intro x hx hxs
-          simp at hxs
-          exact h.1 (List.mem_filterMap.2 ⟨x, hx, hxs⟩)
-        simp [hs, this]
-      · simp [hs, he]
-        exact ih h.2
-
-theorem mem_sources_iff (crs : List CRC) (s : Nat) :
-    s ∈ crs.filterMap (·.src) ↔ crs.filter (fun cr => cr.src == some s) ≠ [] := by
-  rw [List.mem_filterMap, Ne, List.filter_eq_nil_iff]
-  constructor
-  · rintro ⟨x, hx, hs⟩ h
-    exact h x hx (by simp [hs])
-  · intro h
-    false_or_by_contra
-    rename_i hn
-    apply h
-    intro x hx hxs
-    simp at hxs
-    exact hn ⟨x, hx, hxs⟩
 
 -- ---------------------------------------------------------------- reading the JavaScript entries
 
@@ -788,6 +715,185 @@ theorem jsonRead_js (c : Cfg) (f : Kind → Nat → Bytes) (m : MetaMap) (s : Na
         exact h.1 (List.mem_map.2 ⟨y, hy, hxs⟩)
     · rw [jsonRead_cons_ne _ _ _ hk, ih h.2]
       simp [hk]
+
+-- ---------------------------------------------------------------- metaOrder / metaCounts of the CSS callback
+
+def countLookup : CountMap → Nat → Option Nat
+  | [], _ => none
+  | (k, v) :: m, s => if k = s then some v else countLookup m s
+
+/-- the count recorded for `s` (0 when there is none) -/
+def lookupN (m : CountMap) (s : Nat) : Nat := (countLookup m s).getD 0
+
+theorem countAdd_sum (m : CountMap) (s n : Nat) :
+    ((countAdd m s n).map (·.2)).sum = (m.map (·.2)).sum + n := by
+  induction m with
+  | nil => simp [countAdd]
+  | cons kv m ih =>
+    obtain ⟨k, v⟩ := kv
+    simp only [countAdd]
+    split
+    · simp; omega
+    · simp only [List.map_cons, List.sum_cons, ih]; omega
+
+theorem countAdd_keys (m : CountMap) (s n : Nat) :
+    (countAdd m s n).map (·.1) = if s ∈ m.map (·.1) then m.map (·.1) else m.map (·.1) ++ [s] := by
+  induction m with
+  | nil => simp [countAdd]
+  | cons kv m ih =>
+    obtain ⟨k, v⟩ := kv
+    simp only [countAdd]
+    by_cases h : k = s
+    · subst h; simp
+    · have : ¬ s = k := fun e => h e.symm
+      simp only [h, if_false, List.map_cons, ih, List.mem_cons, this, false_or]
+      split <;> simp
+
+theorem countAdd_nodup (m : CountMap) (s n : Nat) (h : (m.map (·.1)).Nodup) :
+    ((countAdd m s n).map (·.1)).Nodup := by
+  rw [countAdd_keys]
+  split
+  · exact h
+  · rename_i hs
+    rw [List.nodup_append]
+    refine ⟨h, by simp, ?_⟩
+    intro a ha b' hb'
+    simp at hb'
+    subst hb'
+    exact fun e => hs (e ▸ ha)
+
+theorem lookupN_add (m : CountMap) (s k n : Nat) :
+    lookupN (countAdd m s n) k = lookupN m k + (if k = s then n else 0) := by
+  induction m with
+  | nil =>
+    simp only [countAdd, lookupN, countLookup]
+    by_cases h : k = s
+    · subst h; simp
+    · have : ¬ s = k := fun e => h e.symm
+      simp [h, this]
+  | cons kv m ih =>
+    obtain ⟨k', v⟩ := kv
+    simp only [countAdd]
+    by_cases h1 : k' = s
+    · subst h1
+      simp only [if_true, lookupN, countLookup]
+      by_cases h2 : k' = k
+      · subst h2; simp
+      · have : ¬ k = k' := fun e => h2 e.symm
+        simp [h2, this]
+    · simp only [h1, if_false]
+      by_cases h2 : k' = k
+      · subst h2
+        have : ¬ k' = s := h1
+        simp [lookupN, countLookup, this]
+      · simp only [lookupN, countLookup, h2, if_false] at ih ⊢
+        exact ih
+
+theorem countLookup_isSome (m : CountMap) (s : Nat) : (countLookup m s).isSome = true ↔ s ∈ m.map (·.1) := by
+  induction m with
+  | nil => simp [countLookup]
+  | cons kv m ih =>
+    obtain ⟨k, v⟩ := kv
+    simp only [countLookup, List.map_cons, List.mem_cons]
+    by_cases h : k = s
+    · subst h; simp
+    · have : ¬ s = k := fun e => h e.symm
+      simp [h, this, ih]
+
+/-- with distinct keys a reader of the JSON object gets the value recorded for the key -/
+theorem jsonRead_nodup (es : CountMap) (s : Nat) (h : (es.map (·.1)).Nodup) : jsonRead es s = countLookup es s := by
+  induction es with
+  | nil => simp [jsonRead, countLookup]
+  | cons kv m ih =>
+    obtain ⟨k, v⟩ := kv
+    simp only [List.map_cons, List.nodup_cons] at h
+    simp only [countLookup]
+    by_cases hk : k = s
+    · subst hk
+      rw [jsonRead_cons_eq _ _ _ rfl]
+      · simp
+      · intro x hx hxs
+        exact h.1 (List.mem_map.2 ⟨x, hx, hxs⟩)
+    · rw [jsonRead_cons_ne _ _ _ hk, ih h.2]
+      simp [hk]
+
+theorem cssCounts_nodup (c : Cfg) (f : Kind → Nat → Bytes) (crs : List CRC) :
+    ∀ m : CountMap, (m.map (·.1)).Nodup → ((cssCounts c f m crs).map (·.1)).Nodup := by
+  induction crs with
+  | nil => intro m h; simpa [cssCounts] using h
+  | cons cr rest ih =>
+    intro m h
+    simp only [cssCounts]
+    split
+    · exact ih m h
+    · exact ih _ (countAdd_nodup m _ _ h)
+
+theorem cssCounts_keys (c : Cfg) (f : Kind → Nat → Bytes) (crs : List CRC) (s : Nat) :
+    ∀ m : CountMap, s ∈ (cssCounts c f m crs).map (·.1) ↔ s ∈ m.map (·.1) ∨ s ∈ crs.filterMap (·.src) := by
+  induction crs with
+  | nil => intro m; simp [cssCounts]
+  | cons cr rest ih =>
+    intro m
+    simp only [cssCounts]
+    cases hs : cr.src with
+    | none => simp [ih, hs]
+    | some s' =>
+      simp only [ih, countAdd_keys, List.filterMap_cons, hs, List.mem_cons]
+      by_cases hm : s' ∈ m.map (·.1)
+      · simp only [hm, if_true]
+        constructor
+        · rintro (h | h)
+          · exact Or.inl h
+          · exact Or.inr (Or.inr h)
+        · rintro (h | h | h)
+          · exact Or.inl h
+          · subst h; exact Or.inl hm
+          · exact Or.inr h
+      · simp only [hm, if_false, List.mem_append, List.mem_singleton]
+        constructor
+        · rintro ((h | h) | h)
+          · exact Or.inl h
+          · exact Or.inr (Or.inl h)
+          · exact Or.inr (Or.inr h)
+        · rintro (h | h | h)
+          · exact Or.inl (Or.inl h)
+          · exact Or.inl (Or.inr h)
+          · exact Or.inr h
+
+/-- the count recorded for `s` is the sum over the compile results of `s` -/
+theorem cssCounts_lookup (c : Cfg) (f : Kind → Nat → Bytes) (crs : List CRC) (s : Nat) :
+    ∀ m : CountMap, lookupN (cssCounts c f m crs) s =
+      lookupN m s + ((crs.filter (fun cr => cr.src == some s)).map fun cr => sliceCount c f cr.code).sum := by
+  induction crs with
+  | nil => intro m; simp [cssCounts]
+  | cons cr rest ih =>
+    intro m
+    simp only [cssCounts]
+    cases hs : cr.src with
+    | none => simp [ih, hs]
+    | some s' =>
+      simp only [ih, lookupN_add, List.filter_cons, hs]
+      by_cases h : s = s'
+      · subst h; simp; omega
+      · have : ¬ s' = s := fun e => h e.symm
+        simp [h, this]
+
+/-- the printed counts add up to the counts of all compile results that have a source -/
+theorem cssCounts_sum (c : Cfg) (f : Kind → Nat → Bytes) (cm : Bool) (crs : List CRC) :
+    ∀ (m : CountMap) (nbc : Bool), ((cssCounts c f m crs).map (·.2)).sum =
+      (m.map (·.2)).sum + ownedSum (sliceCount c f) (cssLoop cm nbc crs) := by
+  induction crs with
+  | nil => intro m nbc; simp [cssCounts, cssLoop, ownedSum]
+  | cons cr rest ih =>
+    intro m nbc
+    simp only [cssCounts, cssLoop, ownedSum_append, ownedSum_of_unowned _ _ (cssFront_unowned cm nbc cr), Nat.zero_add]
+    cases hs : cr.src with
+    | none =>
+      simp only [ih m (nbc || !cr.code.isEmpty)]
+      simp [ownedSum]
+    | some s =>
+      simp only [ih _ (nbc || !cr.code.isEmpty), countAdd_sum]
+      simp [ownedSum]; omega
 
 -- ---------------------------------------------------------------- the shortcut and the appended comments
 
